@@ -1,6 +1,7 @@
 (* C14 — Shared store behaves as a map and hands out isolated snapshots.
    Only property theorems here; each closed by `exact` of a lemma from Proofs/. *)
 From Flyt Require Import Store StoreCorr StoreProofs.
+From Flyt Require Import C14Glue.
 
 (* isolation, for every history: whatever sequence of store operations, snapshot mutations and
    merges of snapshots (of any length, naming only objects that were handed out), every answer
@@ -34,13 +35,13 @@ Print Assumptions C14_get_merge.
    domain of GetAll and Has k = isSome (Get k) (the last three by definition of the answers) *)
 Theorem C14_reachable_nodup :
   forall ops, NoDup (akeys (d_map (dstates dinit ops))).
-Proof. intros ops. apply dstates_ok. constructor. Qed.
+Proof. exact C14_reachable_nodup_glue. Qed.
 Print Assumptions C14_reachable_nodup.
 
 Theorem C14_answers_consistent :
   forall m k, ahas m k = (match aget m k with Some _ => true | None => false end) /\
               length m = length (akeys m) /\ akeys m = map fst m.
-Proof. intros m k. split; [reflexivity|]. split; [unfold akeys; now rewrite map_length|reflexivity]. Qed.
+Proof. exact C14_answers_consistent_glue. Qed.
 Print Assumptions C14_answers_consistent.
 
 (* the predicate applied to the implementation's answers holds of the heap machine's answers *)
